@@ -325,7 +325,7 @@ def watch_for_stalls(procs, wall_cap, t0):
                     p.send_signal(3)  # SIGQUIT: goroutine dump, then exit
                 except Exception:
                     pass
-        time.sleep(2)
+        time.sleep(0.3)
     return stalled
 
 
